@@ -101,6 +101,8 @@ class Conv:
             return [0, [1, self.n(st[1]), [self.e(a) for a in st[2]]]]
         if k == 'lcall':
             return [0, [2, self.lf.index(st[1]), [self.e(a) for a in st[2]]]]
+        if k == 'setthe':
+            return [0, [0, [4, self.n(st[1])], self.e(st[2])]]
         if k == 'setobjprop':
             if st[1] not in ('sound', 'sprite', 'cast'):
                 raise Unsupported('assignment to a property of ' + st[1])
